@@ -336,6 +336,17 @@ def run_check(pid, tier, seed, replay=None):
             discharged = obligations
         else:
             broken.append('proof: ' + first_error(build_out))
+    coqchk_report = None
+    if tier == 'thorough' and discharged == obligations and not os.environ.get('VERIF_NO_COQCHK'):
+        try:
+            mods = [f'V.{plugin.COQ_DIR}.{pf[:-2]}' for pf in props_files]
+            pc = subprocess.run(['coqchk', '-o', '-silent', '-Q', COQ, 'V'] + mods, capture_output=True, text=True, timeout=1200)
+            m = re.search(r'\* Axioms:(.*?)\n\s*\n\* Constants', pc.stdout + pc.stderr, re.S)
+            coqchk_report = {'rc': pc.returncode, 'axioms': ' '.join(m.group(1).split()) if m else (pc.stdout + pc.stderr)[-500:]}
+            if pc.returncode != 0:
+                broken.append('coqchk rejected the compiled development: ' + (pc.stdout + pc.stderr)[-500:])
+        except subprocess.TimeoutExpired:
+            coqchk_report = {'rc': None, 'axioms': 'coqchk timed out'}
     model_ok = True
     if broken:
         # the model file may still build even if a proof does not
@@ -482,6 +493,7 @@ def run_check(pid, tier, seed, replay=None):
             'checker_cmd': f'cd /verif/coq && make -j8 {plugin.COQ_DIR}/Props.vo  (coq_makefile, full .vo build; coqc 8.16.1)',
             'trusted_base': trusted,
             'theorems': names,
+            'coqchk': coqchk_report,
             'generated_files': gen_info,
             'evaluations': len(cases),
             'distinct_nontrivial': len(nontriv),
